@@ -42,6 +42,8 @@ var C11ModHosts = []C11ModHost{
 	{Name: "align-attr", Kind: 'e', Decl: "struct HAL {\n    @align(§) m: i32,\n    n: i32,\n}", U1: "fn use_hal() -> i32 {\n    var t: HAL;\n    return t.n;\n}", U2: "var<private> ghal: HAL;"},
 	{Name: "size-attr", Kind: 'e', Decl: "struct HSZ {\n    @size(§) m: i32,\n    n: i32,\n}", U1: "fn use_hsz() -> i32 {\n    var t: HSZ;\n    return t.n;\n}", U2: "var<private> ghsz: HSZ;"},
 
+	{Name: "module-const-assert", Kind: 's', Decl: "§", U1: "fn between_a() -> i32 {\n    return 1;\n}", U2: "fn between_b() -> i32 {\n    return 2;\n}"},
+
 	{Name: "alias-type", Kind: 't', Decl: "alias HT = §;", U1: "fn use_ht() -> i32 {\n    var t: HT;\n    return 1;\n}", U2: "struct HTS { m: HT }"},
 	{Name: "struct-member-type", Kind: 't', Decl: "struct HT {\n    k: i32,\n    m: §,\n}", U1: "fn use_ht() -> i32 {\n    var t: HT;\n    return t.k;\n}", U2: "var<private> ght: HT;"},
 	{Name: "private-var-type", Kind: 't', Decl: "var<private> ht: §;", U1: "fn use_ht() -> i32 {\n    let t = ht;\n    return 1;\n}", U2: "fn use_ht2() -> i32 {\n    let t2 = ht;\n    return 2;\n}"},
